@@ -191,7 +191,13 @@ where
             // tag is in the future; if it's "multiple", keep sending all tags in
             // between where we are now and payload.delivery_tag
             if payload.multiple {
-                let ret = (self.to_confirm)(self.parent.expected);
+                // a tag we already saw out of order keeps the outcome it was
+                // confirmed with; this multiple only covers the others.
+                let tag = self.parent.expected;
+                let ret = match self.parent.out_of_order.remove(&tag) {
+                    Some(earlier) => earlier,
+                    None => (self.to_confirm)(tag),
+                };
                 self.parent.expected += 1;
                 return Some(ret);
             } else {
